@@ -10,6 +10,7 @@ import (
 	"context"
 	"encoding/json"
 	"fmt"
+	"os"
 	"runtime"
 	"runtime/debug"
 	"strings"
@@ -121,7 +122,7 @@ func runStress(sc StressCase, o rec, opts runOpts) (v pbt.Verdict, hist string) 
 		b, _ := json.Marshal(sc)
 		return "stress history (real goroutines, not replayable deterministically): " + string(b) + "\n  " + strings.Join(log, "\n  ")
 	}
-	sharedSeen, dedupSeen := false, false
+	sharedSeen, dedupSeen, excl18 := false, false, false
 	var all []problem
 	for round := 0; round < sc.Rounds; round++ {
 		// observation-only scheduler: records arrivals at the yield points, never parks
@@ -213,6 +214,7 @@ func runStress(sc StressCase, o rec, opts runOpts) (v pbt.Verdict, hist string) 
 			time.Sleep(500 * time.Millisecond)
 			g2 := allGoroutines()
 			var wedged []string
+			progress := false // somebody can still run: a follower waiting for it is not wedged
 			s.mu.Lock()
 			for _, p := range s.parts {
 				if p.finished {
@@ -220,11 +222,16 @@ func runStress(sc StressCase, o rec, opts runOpts) (v pbt.Verdict, hist string) 
 				}
 				a, ok1 := g1[p.gid]
 				b, ok2 := g2[p.gid]
-				if ok1 && ok2 && a.top == b.top && !strings.HasPrefix(b.state, "run") {
-					wedged = append(wedged, fmt.Sprintf("p%d blocked [%s] in %s\n%s", p.id, b.state, b.top, b.text))
+				if !ok1 || !ok2 || a.top != b.top || strings.HasPrefix(a.state, "run") || strings.HasPrefix(b.state, "run") {
+					progress = true
+					continue
 				}
+				wedged = append(wedged, fmt.Sprintf("p%d blocked [%s] in %s\n%s", p.id, b.state, b.top, b.text))
 			}
 			s.mu.Unlock()
+			if progress {
+				wedged = nil
+			}
 			for _, p := range s.parts {
 				p.cancel()
 			}
@@ -256,7 +263,7 @@ func runStress(sc StressCase, o rec, opts runOpts) (v pbt.Verdict, hist string) 
 			p.cancel()
 		}
 		if s.excluded18 > 0 {
-			o.label("excluded:%s", f18Inbound)
+			excl18 = true
 		}
 		loads, pre := s.loads.snapshot()
 		logf("round %d upstream loads: %v", round, loads)
@@ -264,6 +271,9 @@ func runStress(sc StressCase, o rec, opts runOpts) (v pbt.Verdict, hist string) 
 		if len(all) > 0 {
 			break
 		}
+	}
+	if excl18 {
+		labelExcluded18(o, c.Layer)
 	}
 	if sharedSeen {
 		o.label("stress:shared")
@@ -303,6 +313,35 @@ func runStress(sc StressCase, o rec, opts runOpts) (v pbt.Verdict, hist string) 
 	return pbt.Bad("%s", msg), history()
 }
 
+// restrictForRace: while C11-late-follower-double-close is listed as known, a history with three
+// or more requests on one inbound key can make two late followers touch the leader's
+// InflightRequest concurrently (the pseudo-leader writes Data/SharedData in its second FinishOk
+// while the other late follower reads them): the race detector then fails the test binary for a
+// consequence of the known defect, and a Go test cannot be un-failed. Under -race such
+// histories are therefore cut down to two requests per inbound key (counted as excluded).
+func restrictForRace(sc StressCase) (StressCase, bool) {
+	if sc.Layer == layerSubgraph || sc.OpType != "query" {
+		return sc, false
+	}
+	seen := map[string]int{}
+	out := sc
+	out.Parts = nil
+	cut := false
+	for _, p := range sc.Parts {
+		if p.Key < 0 || p.Key >= len(sc.Keys) {
+			return sc, false
+		}
+		ik := fmt.Sprintf("%d/%v", clientOpID(sc.Keys[p.Key].Op, p.Alt), sc.Keys[p.Key])
+		if seen[ik] >= 2 {
+			cut = true
+			continue
+		}
+		seen[ik]++
+		out.Parts = append(out.Parts, p)
+	}
+	return out, cut
+}
+
 // stressRun draws histories from the generator (seeded from the shard seed) and runs each in
 // its own subtest.
 func stressRun(t *testing.T, r *pbt.Run, quick, thorough int) {
@@ -311,7 +350,14 @@ func stressRun(t *testing.T, r *pbt.Run, quick, thorough int) {
 	opts := defaultOpts()
 	for i := 0; i < n; i++ {
 		sc := gen.Example(int(uint32(r.Seed>>1)) + i)
+		cut := false
+		if raceBuild() && opts.steer17 {
+			sc, cut = restrictForRace(sc)
+		}
 		r.Direct(stressName, sc, "", func(rc *pbt.Rec) string {
+			if cut {
+				rc.Label("excluded:" + f17)
+			}
 			var v pbt.Verdict
 			var hist string
 			ok := t.Run("history", func(*testing.T) { v, hist = runStress(sc, rec{rc}, opts) })
@@ -330,6 +376,8 @@ func stressRun(t *testing.T, r *pbt.Run, quick, thorough int) {
 		}
 	}
 }
+
+func raceBuild() bool { return os.Getenv("VERIF_RACE") == "1" }
 
 func stressHandler(raw json.RawMessage) string {
 	var sc StressCase
